@@ -68,6 +68,9 @@ def _corpus():
     # texts with #hashtags whose body looks like a time expression: a label is cut out whatever its letter case
     for t in ("pay rent #friday", "#sprint5 tomorrow", "plan #v2 friday 10:00", "#fun meet john tomorrow 5pm", "tomorrow #work-8pm 5pm", "#may-12 call bob", "next #monday-9am week friday"):
         out.append((t, "2018-03-07T12:43"))
+    # letters that only case-fold to an ASCII letter
+    for t in ("5. \u017feptember 2020", "\u017fept 5th", "12.\u017fep", "augu\u017ft 3rd", "3. o\u212atober", "\u017fonntag 10 uhr"):
+        out.append((t, "2018-03-07T12:43"))
     return list(dict.fromkeys(out))
 
 
